@@ -301,6 +301,34 @@ def run(tier, seed, replay=None):
                     R.violation({'target': target, 'value': repr(val), 'rendered': t, 'what': 'non-string constant rendered with quotes/backslashes'})
             except Exception as e:
                 R.notes.setdefault('nonstring_errors', []).append(f'{target} {val!r}: {type(e).__name__}')
+    # ---------------- numbers: the rendered literal is read back (standard numeric-literal syntax) as exactly the value, whatever
+    # its magnitude: floats over the whole exponent range, integers of any size
+    numzoo = [1e-7, 2.5e-5, 1.2345678901234568e-05, 6.62607015e-34, 2.2250738585072014e-308, 5e-324, 1.6e-19, 1e22, 1.7976931348623157e308,
+              0.1 + 0.2, 1 / 3, 123456789.123456789, 1e16, 1e15 + 0.3, 9007199254740993.0, -1e-9, -3.5e40, 2 ** 63, 10 ** 30, -(10 ** 25), 0.0]
+    numzoo += [rng.uniform(1, 10) * 10.0 ** rng.randint(-300, 300) for _ in range(40 if tier == 'quick' else 400)]
+    numzoo += [rng.uniform(-1, 1) * 10.0 ** rng.randint(-30, -3) for _ in range(40 if tier == 'quick' else 400)]
+    num_rep = 0
+    for val in numzoo:
+        for target in TARGETS:
+            try:
+                a = parse_sql("select 'X7X'", 'mindsdb')
+                if set_constant(a, val) != 1:
+                    continue
+                t = render(a, target)
+            except Exception as e:
+                R.notes.setdefault('nonstring_errors', []).append(f'{target} {val!r}: {type(e).__name__}')
+                continue
+            nonstr += 1
+            m_ = re.match(r"SELECT\s+\(?\s*(-?\s*\d[\d.]*(?:[eE][+-]?\d+)?)", t)
+            try:
+                lit = m_.group(1).replace(' ', '')
+                back = int(lit) if isinstance(val, int) else float(lit)
+            except Exception:
+                lit, back = None, None
+            if (back != val or lit is None) and num_rep < 3:
+                num_rep += 1
+                R.violation({'target': target, 'value': repr(val), 'rendered': t, 'literal_read_back': repr(back),
+                             'what': 'a numeric constant is rendered as a literal that does not denote exactly that value'})
     # ---------------- trees built in code with every option of the node: an INSERT whose cells are Constant nodes prints each cell as
     # that constant prints on its own, whatever the flags of the statement (is_plain says the values are constants, nothing more)
     from mindsdb_sql.parser.ast import Insert as Insert_, Identifier as Id_
